@@ -1,8 +1,8 @@
 """C12 — typed responses are serialised faithfully with their declared status."""
 import re
 
-from .lib import (PLUMBING, callee_allow, callers, closure_args_of_call, const_int, operand_local)
-from .lib_c12 import (STATUS_PATH, TO_STRING, accept_edges, agg_field_op, coded_impls, const_val, from_impls, norm_ty, op_const_path,
+from .lib import (ITER_PLUMBING, PLUMBING, borrow_root, callee_allow, callers, closure_args_of_call, const_int, element_sources, operand_local)
+from .lib_c12 import (STATUS_PATH, TO_STRING, Origin, accept_edges, agg_field_op, coded_impls, const_val, from_impls, norm_ty, op_const_path,
                       only_plumbing, ret_ok_sites, self_of_call)
 
 LEVEL = "other"
@@ -132,7 +132,8 @@ def r2_for_object(ctx):
         allc = f.live_calls()
         ok = len(cs) == 1 and len(allc) == 1
         own = ok and self_of_call(cs[0][1]) == x
-        ret = ok and operand_local({"k": "move", "pl": cs[0][1]["dest"]}) == 0
+        rsl = f.slice({"l": 0, "p": []})
+        ret = ok and [b for c, b, _ in rsl.callees] == [cs[0][0]]
         arg_ok = False
         kind = None
         if ok:
@@ -192,12 +193,14 @@ def r3_json_body(ctx):
             val = const_val(ctx.ds, vp) if vp else None
             ctx.check(R, "content-type-is-application/json", name == "http::header::CONTENT_TYPE" and val == "application/json",
                       "header(%s, %s = %r)" % (name, vp, val), (f, hbb))
+    # the value returned on success is the result of Builder::body — as `Ok(b.body(x)?)`, `b.body(x).map_err(HttpError::from)`, a match, ..
     oks = ret_ok_sites(f)
-    for b, stt in oks:
-        sl = f.slice(stt["rv"]["ops"][0])
-        ctx.check(R, "returns-the-built-response", sl.has_call(r"http::response::Builder::body$"), "Ok(..) carries the result of Builder::body", (f, b))
-    if not oks:
-        ctx.lost(R, "Ok(response) in the JSON to_response")
+    rsl = f.slice({"l": 0, "p": []})
+    carried = all(f.slice(stt["rv"]["ops"][0]).has_call(r"http::response::Builder::body$") for b, stt in oks) and rsl.has_call(r"http::response::Builder::body$")
+    badr = callee_allow(rsl, PLUMBING + [SER, r"Result::<T, E>::map_err$", r"body::Body::from$", r"body::Body::with_content$", r"bytes::Bytes::from$",
+                                         r"http::response::Builder::(header|body)$", r"^error::HttpError::for_", r"string::ToString::to_string$"])
+    ctx.check(R, "returns-the-built-response", carried and not badr,
+              "the returned value carries the result of Builder::body (%d explicit Ok sites); other callees feeding the return value: %s" % (len(oks), [b[0] for b in badr]), f)
     st = f.live_calls(r"http::response::Builder::status$")
     ctx.check(R, "no-status-override", not st, "Builder::status calls inside to_response: %d" % len(st), f)
 
@@ -239,6 +242,21 @@ def _insert_sites(ctx, f):
     return out
 
 
+def _from_to_map(ds, g, op, allow):
+    """(derives from to_map(..), [other callees]) for a header name / value operand: directly (for / while-let loop over the map in the
+    function itself) or as the item of an iterator adaptor closure (`map.into_iter().try_for_each(|(k, v)| ..)`)."""
+    o = Origin(ds, g, op)
+    bad = o.bad_callees(allow + ITER_PLUMBING)
+    if o.has_call(r"^to_map::to_map$"):
+        return True, bad
+    ok = False
+    for h, it, how in element_sources(ds, g, op):
+        io = Origin(ds, h, it)
+        ok = ok or io.has_call(r"^to_map::to_map$")
+        bad += io.bad_callees(allow + ITER_PLUMBING)
+    return ok, bad
+
+
 def r5_header_order(ctx):
     R = ctx.rule("C12.R5", "in HttpResponseHeaders::to_result the declared headers (to_map(&structured_headers)) are inserted into the response's header map before, and never after, "
                  "extend(other_headers); every Ok return has passed the extend; the response is the one produced from `body`", floor=9)
@@ -265,18 +283,20 @@ def r5_header_order(ctx):
         ctx.check(R, "insert-before-extend:%d" % n, before,
                   "insert of a declared header: extend reachable afterwards=%s, insert reachable after extend=%s (a later insert would override the explicit header)" % (
                       ebb in f.reachable(sbb), sbb in after), (f, sbb))
-        if g is f:
-            ks, vs = f.slice(t["args"][1]), f.slice(t["args"][2])
-            from_map = ks.has_call(r"^to_map::to_map$") and vs.has_call(r"^to_map::to_map$")
-            badk = callee_allow(ks, PLUMBING + [r"^to_map::to_map$", r"Result::<T, E>::map_err$", r"iter::IntoIterator::into_iter$", r"iter::Iterator::next$",
-                                                 r"convert::TryFrom::try_from$", r"HeaderName::from_bytes$", r"HeaderName::from_str$", r"str::FromStr::from_str$", r"String::as_bytes$", r"String::as_str$"])
-            badv = callee_allow(vs, PLUMBING + [r"^to_map::to_map$", r"Result::<T, E>::map_err$", r"iter::IntoIterator::into_iter$", r"iter::Iterator::next$",
-                                                 r"convert::TryFrom::try_from$", r"HeaderValue::from_str$", r"HeaderValue::from_bytes$", r"str::FromStr::from_str$", r"String::as_bytes$", r"String::as_str$"])
-            ctx.check(R, "declared-name-and-value-from-to_map:%d" % n, from_map and not badk and not badv,
-                      "name and value derive from to_map(..)=%s; other callees on name %s, on value %s" % (from_map, [b[0] for b in badk], [b[0] for b in badv]), (f, sbb))
-            rs = f.slice(t["args"][0])
-            same = bool(ehm) and set(b for _, b, _ in rs.calls(r"headers_mut$")) == set(b for _, b, _ in ehm)
-            ctx.check(R, "same-header-map:%d" % n, same, "insert and extend act on the same headers_mut() of the response: %s" % same, (f, sbb))
+        NAME_OK = [r"^to_map::to_map$", r"Result::<T, E>::map_err$", r"convert::TryFrom::try_from$", r"HeaderName::from_bytes$", r"HeaderName::from_str$", r"str::FromStr::from_str$",
+                   r"String::as_bytes$", r"String::as_str$"]
+        VALUE_OK = [r"^to_map::to_map$", r"Result::<T, E>::map_err$", r"convert::TryFrom::try_from$", r"HeaderValue::from_str$", r"HeaderValue::from_bytes$", r"str::FromStr::from_str$",
+                    r"String::as_bytes$", r"String::as_str$"]
+        from_k, badk = _from_to_map(ctx.ds, g, t["args"][1], NAME_OK)
+        from_v, badv = _from_to_map(ctx.ds, g, t["args"][2], VALUE_OK)
+        ctx.check(R, "declared-name-and-value-from-to_map:%d" % n, from_k and from_v and not badk and not badv,
+                  "name and value derive from to_map(..)=%s; other callees on name %s, on value %s" % (from_k and from_v, badk, badv), (f, sbb))
+        # insert and extend write to the header map of the same response (the same or another headers_mut() borrow of it)
+        ro = Origin(ctx.ds, g, t["args"][0])
+        iroots = set(borrow_root(h_, ht["args"][0]) for h_, c, hbb, ht in ro.callees() if re.search(r"http::Response::<T>::headers_mut$", c) and h_ is f)
+        eroots = set(borrow_root(f, ht["args"][0]) for c, hbb, ht in ehm)
+        same = bool(iroots) and iroots == eroots and None not in iroots and not ro.bad_callees([r"http::Response::<T>::headers_mut$"]) and not ro.unresolved
+        ctx.check(R, "same-header-map:%d" % n, same, "insert and extend act on headers_mut() of the same response (locals %s / %s): %s" % (sorted(map(str, iroots)), sorted(map(str, eroots)), same), (f, sbb))
     tm = f.live_calls(r"^to_map::to_map$")
     for bb, t in tm:
         ts = f.slice(t["args"][0])
@@ -325,38 +345,57 @@ def r6_redirects(ctx):
             sl = f.slice(t["args"][0])
             ok_arg = sl.params() == [1] and only_plumbing(sl, [r"String::as_str$", r"String::as_bytes$"])
         ctx.check(R, "%s:validates-location" % name, len(fs) >= 1 and ok_arg, "HeaderValue validation calls: %d, on the unmodified location argument: %s" % (len(fs), ok_arg), f)
-        oks = ret_ok_sites(f)
-        if not oks:
-            ctx.lost(R, "Ok(..) in %s" % name)
+        # the response is built at the call(s) of HttpResponseHeaders::new — in the constructor itself (`Ok(new(..))` after `?` / inside a
+        # match arm) or in a closure given to an Ok-only combinator of the validation result (`check(&location).map(|()| new(..))`)
+        VALID = r"HeaderValue::from_str$|HeaderValue as .*::(from_str|try_from)$"
+        sites = [(g, bb, t) for g in [f] + ctx.ds.descendants(f) for bb, t in g.live_calls(r"^handler::HttpResponseHeaders::<T, H>::new$")]
+        if not sites:
+            ctx.lost(R, "HttpResponseHeaders::new(..) in %s" % name)
             continue
-        edges = accept_edges(f, r"HeaderValue::from_str$|HeaderValue as .*::(from_str|try_from)$")
-        for b, stt in oks:
-            dom = [e for e in edges if f.edge_dominates(e[0], e[1], b)]
-            ctx.check(R, "%s:ok-dominated-by-valid-location" % name, bool(dom),
-                      "Ok(response) %s dominated by the Ok edge of the location check (%d candidate switches)" % ("is" if dom else "is NOT", len(edges)), (f, b))
-            leak = [e for e in dom if any(b in f.reachable(o) for o in e[2])]
-            ctx.check(R, "%s:invalid-location-is-refused" % name, bool(dom) and not leak, "the failure edge of the check reaches no Ok(..): %s" % (bool(dom) and not leak), (f, b))
+        literal = [g.id for g in [f] + ctx.ds.descendants(f) for b, i, st_ in g.aggregates(r"^handler::HttpResponseHeaders$")]
+        edges = accept_edges(f, VALID)
+        for g, bb, nt in sites:
+            if g is f:
+                dom = [e for e in edges if f.edge_dominates(e[0], e[1], bb)]
+                guarded = bool(dom)
+                how = "dominated by the Ok edge of the location check (%d candidate switches)" % len(edges)
+                leak = [e for e in dom if any(bb in f.reachable(o) for o in e[2])]
+                refused = bool(dom) and not leak
+                rhow = "the failure edge of the check does not reach the construction"
+            else:
+                # which call of f receives the closure, and is it an Ok-only combinator on the validation result?
+                takers = [(cbb, ct) for cbb, ct in f.live_calls() for h, node in closure_args_of_call(f, ct) if h is g]
+                guarded = len(takers) == 1 and bool(re.search(r"Result::<T, E>::(map|and_then)$", takers[0][1].get("callee") or "")) and \
+                    f.slice(takers[0][1]["args"][0]).has_call(VALID) and \
+                    not callee_allow(f.slice(takers[0][1]["args"][0]), PLUMBING + [VALID, r"Result::<T, E>::map_err$", r"^handler::http_redirect_error$", r"^error::HttpError::for_", r"String::as_str$"])
+                how = "built inside the closure of %s applied to the result of the location check (runs only for Ok)" % ([ct.get("callee") for _, ct in takers] or "?")
+                refused = guarded
+                rhow = "Result::map / and_then hand an Err on untouched"
+            ctx.check(R, "%s:ok-dominated-by-valid-location" % name, guarded and not literal,
+                      "the response %s %s%s" % ("is" if guarded else "is NOT", how, "; HttpResponseHeaders also built by struct literal in %s" % literal if literal else ""), (g, bb))
+            ctx.check(R, "%s:invalid-location-is-refused" % name, refused, "%s: %s" % (rhow, refused), (g, bb))
+            ga = [norm_ty(x) for x in (nt.get("gargs") or [])]
+            st_ty = ga[0] if ga else None
+            code = codes.get(st_ty)
+            ho = Origin(ctx.ds, g, nt["args"][1])
+            rh = [a for h_, sl_ in ho.parts for a in sl_.atoms if a[0] == "agg" and a[1] == "handler::RedirectHeaders"]
+            loc_ok = bool(rh) and ho.params_of(f) == [1] and not ho.callees() and not ho.unresolved and not ho.item_params
+            statuses.append(st_ty)
+            ctx.check(R, "%s:status-and-location" % name, code == want and loc_ok,
+                      "status type %s has STATUS_CODE %s (want %d); headers = RedirectHeaders{location: the argument, unmodified}=%s" % (st_ty, code, want, loc_ok), (g, bb))
+        # every explicit Ok(..) of the constructor carries a response built at one of those sites
+        for b, stt in ret_ok_sites(f):
             sl = f.slice(stt["rv"]["ops"][0])
-            news = sl.calls(r"^handler::HttpResponseHeaders::<T, H>::new$")
-            good = False
-            detail = "Ok(..) does not carry HttpResponseHeaders::new(..)"
-            for c, nbb, nt in news:
-                ga = [norm_ty(g) for g in (nt.get("gargs") or [])]
-                st_ty = ga[0] if ga else None
-                code = codes.get(st_ty)
-                hs = f.slice(nt["args"][1])
-                rh = [a for a in hs.atoms if a[0] == "agg" and a[1] == "handler::RedirectHeaders"]
-                loc_ok = bool(rh) and hs.params() == [1] and not hs.callees
-                good = code == want and loc_ok
-                statuses.append(st_ty)
-                detail = "status type %s has STATUS_CODE %s (want %d); headers = RedirectHeaders{location: the argument, unmodified}=%s" % (st_ty, code, want, loc_ok)
-            ctx.check(R, "%s:status-and-location" % name, good, detail, (f, b))
-        # failure is an HttpError built from the validation error (map_err closure / explicit Err)
+            if not sl.has_call(r"^handler::HttpResponseHeaders::<T, H>::new$"):
+                ctx.check(R, "%s:ok-carries-the-built-response" % name, False, "an Ok(..) of the constructor does not carry HttpResponseHeaders::new(..)", (f, b))
+        # failure is an HttpError built from the validation error (map_err closure / explicit Err); closures on the way return only the built response
+        ALLOW_RET = [VALID, r"Result::<T, E>::(map_err|map|and_then)$", r"^handler::HttpResponseHeaders::<T, H>::new$", r"^handler::http_redirect_error$", r"^error::HttpError::for_", r"String::as_str$"]
         errsl = f.slice({"l": 0, "p": []})
-        ctx.check(R, "%s:returns-only-validated-or-error" % name, not callee_allow(errsl, PLUMBING + [
-            r"HeaderValue::from_str$", r"HeaderValue as .*::(from_str|try_from)$", r"Result::<T, E>::map_err$", r"^handler::HttpResponseHeaders::<T, H>::new$",
-            r"^handler::http_redirect_error$", r"^error::HttpError::for_", r"String::as_str$"]),
-            "values returned derive only from the validation, the constructor and an HttpError constructor: %s" % errsl.callee_names(), f)
+        badret = [x[0] for x in callee_allow(errsl, PLUMBING + ALLOW_RET)]
+        for g in set(g for g, _, _ in sites if g is not f):
+            badret += [x[0] for x in callee_allow(g.slice({"l": 0, "p": []}), PLUMBING + ALLOW_RET)]
+        ctx.check(R, "%s:returns-only-validated-or-error" % name, not badret,
+                  "values returned derive only from the validation, the constructor and an HttpError constructor: %s (others: %s)" % (errsl.callee_names(), badret), f)
     ctx.check(R, "three-distinct-status-types", len(set(statuses)) == 3, "status types used by the three constructors: %s" % sorted(set(s or "?" for s in statuses)), nontrivial=False)
     # the header is named `location`: RedirectHeaders has exactly that one field and its Serialize impl writes that key
     a = ctx.ds.adts.get("handler::RedirectHeaders")
